@@ -11,6 +11,11 @@ PROPS = {
                  "different subscriber, or >=2 concurrent allocators; distinct = FNV-64 of implementation + op history."),
         "quick": {"timeout": 300, "shards": 1},
         "thorough": {"timeout": 3000, "shards": 2},
+        "technique": "model-based stateful property testing (rapid state machines vs reference map model), concurrent stress phases",
+        "level_text": ("Generated-history search: every pool implementation is driven through thousands of random op histories "
+                       "(and, in thorough, bounded-exhaustive ones) and compared step by step with a reference model. "
+                       "It cannot show absence; it shows the property held on everything generated."),
+        "level_note": "Trusted: the reference model, rapid, Go runtime. Concurrency is stress (real goroutines), not schedule enumeration.",
         "assumptions": ["go1.25 runtime", "pgregory.net/rapid v1.3.0 generation/shrinking",
                         "reference model in harness/c01/model_test.go"],
     },
